@@ -11,8 +11,7 @@ def run(tier, build, replay=None):
         c, f, t = replay["case"], replay.get("from"), replay.get("to")
         b = hist.impl_compute(c)
         i = hist.impl_compute(c, from_day=f, to_day=t)
-        fr = [(x["ev"], x["lot"], x["amt"]) for x in b["ok"]["fractions"]] if "ok" in b else []
-        raw = core.run_model([hist.line(30, l4.encode_input(c, fr, f, t, True))])
+        raw = core.run_model([l4.model_line(c, b, f, t, True, i)])
         data = {"jobs": [[0, f, t]], "impl": [i], "model": [l4.decode_computed(raw[0], c)], "base": {"cases": [c], "impl": [b]}}
     else:
         data = l4.run(tier)
@@ -60,6 +59,7 @@ def run(tier, build, replay=None):
         "samples": [{"case": base["cases"][data["jobs"][0][0]], "from": data["jobs"][0][1], "to": data["jobs"][0][2]}] if data["jobs"] else [],
         "traces_validated_against_impl": len(data["jobs"]),
         "correspondence_mismatches": mism,
+        "end_to_end_stream": hist.ods_stats(base["cases"]),
     })
     out.assumptions = ["'every fraction dated up to the to-date contributes' is claimed for histories whose local dates are monotone in time (finding F9)"]
     return out.finish(proofs, build)
